@@ -700,7 +700,7 @@ def run(chk):
             stats["instructions_with_function_operands"] = stats.get("instructions_with_function_operands", 0) + ip["ninstr_kept"]
 
     # ---- protocol
-    if tie_alarms and not found_concrete:
+    if tie_alarms and not (found_concrete and chk.has_new_concrete()):
         d = chk.replay_dir("tie")
         write_replay(d, "T-dump tie broken (extracted model Model/Reach.v + regenerated tables vs reachability.FindReachable) and no executed-but-"
                      "unreported function was found by the native search:\n  " + "\n  ".join(tie_alarms[:20]) +
